@@ -359,15 +359,29 @@ class FnText:
                         break
                     elif d2 == 0 and tj.kind == 'ident' and tj.text == 'else':
                         seq = [self.stok(j + q).text for q in range(1, 6)]
+                        found_len = 5
                         if seq == ['{', 'continue', ';', '}', ';']:
                             found = j
+                        elif seq[0] == '{':
+                            # `else { debug!(..); continue; };`: log statements (dropped by T2) before the continue
+                            q = j + 2
+                            while self.stok(q).kind == 'ident' and self.stok(q).text in LOG_MACROS \
+                                    and self.stok(q + 1).text == '!' and self.stok(q + 2).text == '(':
+                                q = self.match(q + 2) + 1
+                                if self.stok(q).text == ';':
+                                    q += 1
+                            if q > j + 2 and [self.stok(q + r).text for r in range(4)] == ['continue', ';', '}', ';']:
+                                found = j
+                                found_len = q + 3 - j
                         break
                     j += 1
                 if found is not None:
+                    a0, b0 = self.stok(found).start, self.stok(found + found_len).end
+                    self.edits = [e for e in self.edits if not (e[3][0] == 'T2' and a0 <= e[0] and e[1] <= b0)]
                     self.edits.append((t.start, t.start, 'if ', ('T11', 'let-else-continue')))
-                    self.edits.append((self.stok(found).start, self.stok(found + 5).end, '{', ('T11', 'let-else-continue')))
+                    self.edits.append((a0, b0, '{', ('T11', 'let-else-continue')))
                     closes += 1
-                    i = found + 6
+                    i = found + found_len + 1
                     continue
             elif depth == 1 and t.kind == 'ident' and t.text == 'if' and self.stok(i - 1).text != 'else':
                 # `if C { continue; }` with no else
@@ -491,10 +505,7 @@ class FnText:
 
     def closure_let(self, n, stmt, origin):
         """T10: `|pat| body` -> `|x| { let pat = x; body }` (the let text is given by the contract)"""
-        cs = self.closures()
-        if n > len(cs):
-            raise Unsupported(f'{self.name}: @closurelet {n}: function has {len(cs)} closures')
-        b1, b2 = cs[n - 1]
+        b1, b2 = self.find_closure(n, 'closurelet')
         bs, be, is_block = self.closure_body(b2)
         if is_block:
             pos = self.stok(bs).end
@@ -503,11 +514,39 @@ class FnText:
         # sorts after the `{ ` insertion of annotate_closure at the same position (stable sort, later edit)
         self.edits.append((pos, pos, ' ' + stmt.strip() + ' ', origin))
 
-    def annotate_closure(self, n, header, origin, extra=''):
+    def closure_callee(self, b1):
+        """name of the method/function whose argument list directly contains the closure starting at b1"""
+        depth = 0
+        k = b1 - 1
+        while k > 0:
+            t = self.stok(k)
+            if t.kind == 'punct' and t.text in ')]}':
+                depth += 1
+            elif t.kind == 'punct' and t.text in '([{':
+                if depth == 0:
+                    if t.text == '(' and self.stok(k - 1).kind == 'ident':
+                        return self.stok(k - 1).text
+                    return None
+                depth -= 1
+            k -= 1
+        return None
+
+    def find_closure(self, key, what):
+        """key: an ordinal `3`, or `method:k` = the k-th closure passed to a call of `method`"""
         cs = self.closures()
+        if isinstance(key, str) and ':' in key:
+            meth, k = key.split(':')
+            sel = [c for c in cs if self.closure_callee(c[0]) == meth]
+            if int(k) > len(sel):
+                raise Unsupported(f'{self.name}: @{what} {key}: function has {len(sel)} closures passed to {meth}()')
+            return sel[int(k) - 1]
+        n = int(key)
         if n > len(cs):
-            raise Unsupported(f'{self.name}: @closure {n}: function has {len(cs)} closures')
-        b1, b2 = cs[n - 1]
+            raise Unsupported(f'{self.name}: @{what} {n}: function has {len(cs)} closures')
+        return cs[n - 1]
+
+    def annotate_closure(self, n, header, origin, extra=''):
+        b1, b2 = self.find_closure(n, 'closure')
         # parameter names of the original must reappear in the new header (`_` may become `_p`)
         orig_params = [self.stok(k).text for k in range(b1 + 1, b2) if self.stok(k).kind == 'ident']
         hdr_idents = {t.text for t in tokenize(header + ' ' + extra) if t.kind == 'ident'}
@@ -740,8 +779,8 @@ def process_extract(block_text, tmpl_path, tmpl_line, report):
     helpers = []
     for d, arg, payload, ln in items:
         if d == 'closurelet':
-            mm = re.match(r'(\d+)\s+(.*)$', arg, re.S)
-            lets[int(mm.group(1))] = mm.group(2)
+            mm = re.match(r'([\w:]+)\s+(.*)$', arg, re.S)
+            lets[mm.group(1)] = mm.group(2)
     cont_proofs = {}
     for d, arg, payload, ln in items:
         if d == 'continueproof':
@@ -759,8 +798,8 @@ def process_extract(block_text, tmpl_path, tmpl_line, report):
         elif d in ('nocontinue', 'continueproof'):
             pass
         elif d == 'closurelet':
-            mm = re.match(r'(\d+)\s+(.*)$', arg, re.S)
-            ft.closure_let(int(mm.group(1)), mm.group(2), origin)
+            mm = re.match(r'([\w:]+)\s+(.*)$', arg, re.S)
+            ft.closure_let(mm.group(1), mm.group(2), origin)
         elif d == 'recv':
             ft.recv_mut()
         elif d == 'rename':
@@ -780,11 +819,17 @@ def process_extract(block_text, tmpl_path, tmpl_line, report):
                     ft.edits.append((ft.stok(i2 + 1).start, ft.stok(i2 + 1).end, arg.strip(), ('T4', 'as')))
                     info['fn_as'] = arg.strip()
                     break
-        elif d == 'wrapexpr':
+        elif d in ('wrapexpr', 'wrapexpr_opt'):
             mm = re.match(r'(\d+)\s+`(.*)`\s*=>\s*`(.*)`\s+with\s+(.*)$', arg + (' ' + payload.strip() if payload.strip() else ''), re.S)
             if not mm:
                 raise Unsupported(f'{tmpl_path}:{ln}: bad @wrapexpr')
-            helpers.append(ft.wrapexpr(int(mm.group(1)), mm.group(2), mm.group(3), mm.group(4).strip()))
+            try:
+                helpers.append(ft.wrapexpr(int(mm.group(1)), mm.group(2), mm.group(3), mm.group(4).strip()))
+            except Unsupported:
+                # _opt: when the expression is gone (the code changed) leave the code as it is and let Verus
+                # judge it with the lower-level specifications of the prelude
+                if d == 'wrapexpr':
+                    raise
         elif d == 'derefcmp':
             parts_ = arg.split()
             ft.derefcmp(parts_[0], parts_[1], int(parts_[2]) if len(parts_) > 2 else 1)
@@ -810,8 +855,8 @@ def process_extract(block_text, tmpl_path, tmpl_line, report):
             n, nm = arg.split()
             ft.loopvar(int(n), nm)
         elif d == 'closure':
-            m = re.match(r'(\d+)\s+(.*)$', arg + ('\n' + payload if payload.strip() else ''), re.S)
-            ft.annotate_closure(int(m.group(1)), m.group(2), origin, lets.get(int(m.group(1)), ''))
+            m = re.match(r'([\w:]+)\s+(.*)$', arg + ('\n' + payload if payload.strip() else ''), re.S)
+            ft.annotate_closure(m.group(1), m.group(2), origin, lets.get(m.group(1), ''))
             info['clauses'] += count_clauses(m.group(2))
         elif d == 'return':
             ft.wrap_return('tail' if arg == 'tail' else int(arg), payload, origin)
